@@ -834,6 +834,9 @@ func (r *envelopingReader) Read(data []byte) (n int, err error) {
 			return bytesRead, err
 		}
 		// otherwise EOF, fall through
+		if err := r.checkCurrentComplete(); err != nil {
+			return 0, err
+		}
 	}
 
 	if err := r.prepareNext(); err != nil {
@@ -855,11 +858,30 @@ func (r *envelopingReader) Read(data []byte) (n int, err error) {
 	if len(data) > offset {
 		n, err = r.current.Read(data[offset:])
 	}
+	if errors.Is(err, io.EOF) {
+		if err := r.checkCurrentComplete(); err != nil {
+			return offset + n, err
+		}
+	}
 	if offset > 0 && errors.Is(err, io.EOF) {
 		// EOF here only means this (empty) message is complete, not the whole body
 		err = nil
 	}
 	return offset + n, err
+}
+
+// checkCurrentComplete is called when the reader for the current message hits EOF.
+// If the request body ended before the number of bytes announced in the message's
+// envelope, the message is truncated: that must not look like a normal end of body.
+func (r *envelopingReader) checkCurrentComplete() error {
+	limited, ok := r.current.(*io.LimitedReader)
+	if !ok || limited.N <= 0 {
+		return nil
+	}
+	err := malformedRequestError(fmt.Errorf("request body ended %d bytes short of the length in the message envelope: %w", limited.N, io.ErrUnexpectedEOF))
+	r.err = err
+	r.rw.reportError(err)
+	return err
 }
 
 func (r *envelopingReader) Close() error {
